@@ -66,6 +66,10 @@ type Solver struct {
 	// threshold above which subterms are given names
 	NameThreshold int
 	preamble      []string
+	lines         chan string
+	// QueryTimeout: hard wall-clock limit per response line; the process is killed when exceeded
+	QueryTimeout time.Duration
+	Timeouts     int
 }
 
 func NewSolver(cmdline ...string) (*Solver, error) {
@@ -92,6 +96,19 @@ func (s *Solver) start() error {
 	}
 	s.in = in
 	s.out = bufio.NewReaderSize(out, 1<<16)
+	lines := make(chan string, 64)
+	s.lines = lines
+	rd := s.out
+	go func() {
+		for {
+			line, err := rd.ReadString('\n')
+			if err != nil {
+				close(lines)
+				return
+			}
+			lines <- line
+		}
+	}()
 	s.Dead = false
 	s.gen++
 	s.depth = 0
@@ -208,10 +225,32 @@ func (s *Solver) Assert(t *Term) {
 func (s *Solver) Push() { s.depth++; s.send("(push 1)") }
 func (s *Solver) Pop()  { s.depth--; s.send("(pop 1)") }
 
-func (s *Solver) readLine() (string, error) {
-	line, err := s.out.ReadString('\n')
-	if err != nil {
+func (s *Solver) rawLine() (string, error) {
+	to := s.QueryTimeout
+	if to == 0 {
+		to = 40 * time.Second
+	}
+	select {
+	case line, ok := <-s.lines:
+		if !ok {
+			s.Dead = true
+			return "", io.EOF
+		}
+		return line, nil
+	case <-time.After(to):
+		// the solver ignored its soft timeout: kill it; the next Reset starts a new process
+		s.Timeouts++
 		s.Dead = true
+		if s.cmd != nil && s.cmd.Process != nil {
+			s.cmd.Process.Kill()
+		}
+		return "", fmt.Errorf("solver watchdog timeout")
+	}
+}
+
+func (s *Solver) readLine() (string, error) {
+	line, err := s.rawLine()
+	if err != nil {
 		return "", err
 	}
 	return strings.TrimSpace(line), nil
@@ -315,9 +354,8 @@ func (s *Solver) readSexpText() (string, error) {
 	started := false
 	inStr := false
 	for {
-		line, err := s.out.ReadString('\n')
+		line, err := s.rawLine()
 		if err != nil {
-			s.Dead = true
 			return "", err
 		}
 		for i := 0; i < len(line); i++ {
